@@ -1,6 +1,30 @@
-(* Ops/C19.v — protocol entry points for property C19 (stub until the model is built). *)
-From Coq Require Import List String.
-From PrefVerif Require Import Lib.Val.
+(* Ops/C19.v — protocol entry points for property C19 (1-Euclidean). *)
+From Coq Require Import List NArith ZArith QArith String.
+From PrefVerif Require Import Lib.Val Model.Euclid Model.EuclidLP.
 Import ListNotations.
+Open Scope string_scope.
 
-Definition ops : optable := [].
+Definition d_order (v : val) : list N := dlist dN v.
+Definition d_orders (v : val) : list (list N) := dlist d_order v.
+(* (num den), den > 0 (Z.to_pos maps anything else to 1) *)
+Definition d_Q2 (n d : val) : Q := Qmake (dZ n) (Z.to_pos (dZ d)).
+Definition d_Q (v : val) : Q := d_Q2 (dnth 0 v) (dnth 1 v).
+(* (alt num den) *)
+Definition d_apos (v : val) : N * Q := (dN (dnth 0 v), d_Q2 (dnth 1 v) (dnth 2 v)).
+
+(* c19.check (alts profile ((num den) ...) ((alt num den) ...)) -> bool : verified witness checker *)
+Definition op_check (v : val) : val :=
+  ebool (eucl_check (d_order (dnth 0 v)) (d_orders (dnth 1 v)) (dlist d_Q (dnth 2 v)) (dlist d_apos (dnth 3 v))).
+(* c19.refuted (alts profile) -> bool : true = not single-peaked or not single-crossing, hence not 1-Euclidean *)
+Definition op_refuted (v : val) : val :=
+  ebool (eucl_refuted (d_order (dnth 0 v)) (d_orders (dnth 1 v))).
+Definition op_refuted_fast (v : val) : val :=
+  ebool (eucl_refuted_fast (d_order (dnth 0 v)) (d_orders (dnth 1 v))).
+
+(* c19.decide (alts profile) -> bool : exact reference decider (Fourier-Motzkin over Q; small profiles) *)
+Definition op_decide (v : val) : val :=
+  ebool (eucl_decide (d_order (dnth 0 v)) (d_orders (dnth 1 v))).
+
+Definition ops : optable :=
+  [ ("c19.check", op_check); ("c19.refuted", op_refuted); ("c19.refuted_fast", op_refuted_fast);
+    ("c19.decide", op_decide) ].
